@@ -5,6 +5,8 @@ import pathlib
 import shutil
 import warnings
 
+import sys
+
 import numpy as np
 
 from .. import common, gen_all, fits
@@ -630,4 +632,4 @@ def check(run):
 
 
 def replay(rec):
-    return True
+    return common.replay_by_rerun(sys.modules[__name__], rec)
